@@ -417,18 +417,20 @@ fn get_targets_recursive(
         // confirm their version of `cargo` (not `cargo-fmt`) is >= v1.51
         // https://github.com/rust-lang/cargo/pull/8994
         for dependency in &package.dependencies {
-            if dependency.path.is_none() || visited.contains(&dependency.name) {
-                continue;
-            }
+            // Two different local packages can have the same name: tell them apart by their path.
+            let dependency_path = match dependency.path {
+                Some(ref path) if !visited.contains(path.as_str()) => path,
+                _ => continue,
+            };
 
-            let manifest_path = PathBuf::from(dependency.path.as_ref().unwrap()).join("Cargo.toml");
+            let manifest_path = PathBuf::from(dependency_path).join("Cargo.toml");
             if manifest_path.exists()
                 && !metadata
                     .packages
                     .iter()
                     .any(|p| p.manifest_path.eq(&manifest_path))
             {
-                visited.insert(dependency.name.to_owned());
+                visited.insert(dependency_path.to_string());
                 get_targets_recursive(Some(&manifest_path), targets, visited)?;
             }
         }
